@@ -192,7 +192,9 @@ pub fn solve_case_strategy(p: &GenParams, paths: &'static [u8]) -> BoxedStrategy
             if ex.0 >= 252 {
                 // one case in 64: a long-chain model judged by certificate
                 let (model, witness) = build_chain_model(&ex.3, ex.1);
-                return SolveCase { model, cfg, path: 0, objective: Term::plain(0), maximise: false, assumptions: vec![], witness: Some(witness) };
+                // (C04 maximises the switch variable of the last clause pair on these models)
+                let objective = Term::plain(model.vars.len() - 2);
+                return SolveCase { model, cfg, path: 0, objective, maximise: true, assumptions: vec![], witness: Some(witness) };
             }
             let objective = build_objective(&model, &ex.1);
             let assumptions = build_assumptions(&model, &ex.3);
